@@ -1169,7 +1169,7 @@ func zzG06RunHistory(u *zzG06Univ, base string, acts []zzG06Act) (src *zzG06Obs,
 }
 
 func (wk *zzG06Walk) report(a zzG06Act, srcNode string, src *zzG06Obs, want []zzG06Out, why string, r zzG06Reply, post *zzG06Obs, hist []zzG06Act) {
-	sig := a.Name + "|" + why + "|" + strings.Join(src.Prob, ";") + "|" + strings.Join(post.Prob, ";")
+	sig := a.Name + "|" + why + "|" + r.K + "|" + strings.Join(src.Prob, ";") + "|" + strings.Join(post.Prob, ";")
 	wk.mu.Lock()
 	wk.bad++
 	wk.sigs[sig]++
